@@ -28,7 +28,7 @@ summaries    : the expected rendering of a statistics summary depends on the cou
                carrying only part of the selected labels; a summary by labels may have no row at all (TLC enumerates it).
                Keys say which: /repeated-names, /same-name-other-test, /one-task, /zero-rows, /two-labels, /partial-labels.
 names/orders : the expected rendering does not depend on what the named things of a result are called nor on the order in
-               which they were given: one case in four (quick) of every pattern is also presented with its datasets /
+               which they were given: one case in four of every pattern is also presented with its datasets /
                metadata samples and keys / tasks / tests / labels and label values called by names whose insertion order is
                not the alphabetical one ('run9' before 'run10' -- string order differs from numeric order --, 'tripoli' /
                'mcnp' / 'serpent', the plain names in descending order), the items of a summary listed in another order
@@ -38,7 +38,7 @@ names/orders : the expected rendering does not depend on what the named things o
                value of that sample / label for the row's key / label row (Render!NamedCellsOK); both are part of rowsOK,
                i.e. of the clauses BinRows / ItemRows.  Which cells of a metadata row are marked is not in the statement
                (rows are): a mark under the header of a sample that agrees with the reference is reported as DRIFT.
-table ops of : one case in eight (quick) has the tables its representer produced joined with themselves, joined with the
+table ops of : one case in eight (quick) / six has the tables its representer produced joined with themselves, joined with the
 representer    table the same representer produced for another result of the same kind (same headers, another failing
 tables         pattern / number of rows), sliced, joined then sliced, on the real TableTemplates; the text of the final table
                is read back and TLC (TableOpsTrace.tla) compares it with what TableOps.tla computes from the formatted
@@ -575,7 +575,8 @@ def project(case, rendered, tokens=None, parsed=None):
             if not any(ids):
                 axis = 'none'
             elif width > 0 and len(p['head']) == width:
-                heads = [h if h in item_heads else '' for h in p['head']]                   # columns headed by the name of a thing
+                names = sorted(item_heads)
+                heads = [names[d - 1] if d else '' for d in _named_columns(p['head'], names, width)]   # columns headed by the name of a thing
                 named += sum(1 for h in heads if h)
                 if kind == 'metadata':     # (not in the statement, reported as drift) the marked cells of a row: the samples that differ
                     samples = md_names(case)[1]
@@ -773,12 +774,18 @@ OPS_JOIN_SLICE = OPS_JOIN + [dict(op='slice', a=1, b=None)]
 OPS_SLICES = ([dict(op='slice', a=1, b=None)], [dict(op='slice', a=None, b=-1)])
 
 
+class _NotOffered(Exception):
+    """The operation is not offered for this table (documented refusal): nothing to judge."""
+
+
 def apply_table_ops(t, u, ops):
     """The operations on real TableTemplates (u: the operand of joins) -> text of the final table."""
     from valjean.javert.templates import join as tjoin
     cur = t
     for op in ops:
         if op['op'] == 'slice':
+            if not isinstance(cur.columns[0], np.ndarray):
+                raise _NotOffered()        # slicing is documented for array columns only
             cur = cur[slice(op['a'], op['b'])]
         elif op['op'] == 'join':
             cur = tjoin(cur, u)
@@ -811,6 +818,8 @@ def representer_table_ops(tables, others):
         for who, u, j2, ops in todo:
             try:
                 out.append((k, who, j1, j2, ops, apply_table_ops(t, u, ops), None))
+            except _NotOffered:
+                continue
             except Exception as ex:  # pylint: disable=broad-except
                 out.append((k, who, j1, j2, ops, None, '%s: %s' % (type(ex).__name__, str(ex)[:120])))
     return out
@@ -978,6 +987,8 @@ def order_variants(cases, stride=1, start=0):
         seen[pat] += 1
         if (n + g) % stride == 0:
             out.append(dict(c, ord=ORDS[((n + g) // stride + g // stride) % len(ORDS)]))
+            if c['kind'] == 'stats_labels' and c['fail'] and len(out) % 2:
+                out[-1]['by'] = 2          # two selected labels (two columns headed by a label), their names not in alphabetical order
     return out
 
 
@@ -1014,7 +1025,7 @@ def _nontrivial(obs):
 def check_renderings(ctx, cases, wd, n_enum):
     """Render every case on the real code, let TLC judge the projections; returns the representer tables seen.
     cases[:n_enum] were enumerated by TLC, the others are seeded random."""
-    results, table_ops = observe_all(cases, ops_partners(cases, ctx.pick(8, 3)))
+    results, table_ops = observe_all(cases, ops_partners(cases, ctx.pick(8, 6)))
     records, tables = [], {}
     named, off = defaultdict(lambda: [0, 0]), 0
     for cid, (case, (obs, tokens, tabs)) in enumerate(zip(cases, results), 1):
@@ -1308,9 +1319,9 @@ def run_c12(ctx):
              'strided slice, integer dtype; per dataset or all alike), in rotation; statistics summaries are repeated '
              'with the same counts and their items named alike within / across the classes, equally named but different '
              'tests, all results in one task, two selected labels, tests carrying only part of the selected labels (by '
-             'labels: also no row at all), in rotation; one case in four (quick) / two of every pattern is repeated with its '
+             'labels: also no row at all), in rotation; one case in four of every pattern is repeated with its '
              'datasets / samples / keys / tasks / tests / labels named and inserted in an order that is not the alphabetical '
-             'one (and not the numeric one), columns headed by such a name are judged cell by cell; one case in eight / three '
+             'one (and not the numeric one), columns headed by such a name are judged cell by cell; one case in eight / six '
              'has the tables of its representer joined (with themselves, with the table of another result) and sliced, '
              'judged by TableOpsTrace.tla.  distinct_nontrivial = '
              'distinct inputs whose rendering carries a mark or a table (or raises) + distinct random operation '
@@ -1392,7 +1403,7 @@ def run_c12(ctx):
     cases += svars
     # the same results with their datasets / samples / keys / tasks / tests / labels named and inserted in an order
     # that is not the alphabetical one
-    ovars = order_variants(order, stride=ctx.pick(4, 2))
+    ovars = order_variants(order, stride=4)
     cases += ovars
     n_enum = len(cases)
     # 3. code -> spec: random results outside the enumerated domain (rendered and judged in the same batches)
